@@ -355,6 +355,7 @@ impl<'a> Runner<'a> {
     let analysis = self.analyse(step, &kind, &slice, &res, is_repeat, fault_free);
 
     // Abort handling.
+    let store_differs = if res.abort.is_some() { self.check_store_dump(step) } else { false };
     if let Some(abort) = &res.abort {
       self.aborted_earlier = self.aborted_before;
       self.aborted_before = true;
@@ -382,7 +383,7 @@ impl<'a> Runner<'a> {
         }
         AbortKind::Cycle | AbortKind::Hidden | AbortKind::Overlap => {
           self.diag_aborts += 1;
-          self.judge_diagnostic_abort(step, abort, &analysis, &before);
+          self.judge_diagnostic_abort(step, abort, &analysis, &before, store_differs);
         }
         AbortKind::Other => { self.harness_error = Some(format!("unexpected panic outside the repository: {}", abort.info.short())); }
       }
@@ -393,7 +394,7 @@ impl<'a> Runner<'a> {
       return false;
     }
 
-    self.check_store_dump(step);
+    let _ = self.check_store_dump(step);
     if self.vs.iter().any(|v| v.concerns(self.prop)) { return true; }
 
     // The session returned: from-scratch equality.
@@ -524,7 +525,7 @@ impl<'a> Runner<'a> {
   }
 
   /// O8: the guarded store dump must equal the ledger of latest executions.
-  fn check_store_dump(&mut self, step: usize) {
+  fn check_store_dump(&mut self, step: usize) -> bool {
     use pie::verif::EdgeKind;
     let prog = self.prog.clone();
     let dump = self.pie.verif_dump_store();
@@ -560,6 +561,13 @@ impl<'a> Runner<'a> {
       let real: Vec<&pie::verif::EdgeDump> = n.outgoing.iter().filter(|e| e.kind != EdgeKind::ReservedRequire).collect();
       let reserved: Vec<KeyR> = n.outgoing.iter().filter(|e| e.kind == EdgeKind::ReservedRequire).map(|e| keys[e.target].clone()).collect();
       if rec.completed && !reserved.is_empty() { problem = Some((format!("task {t} completed but keeps reserved require edges to {:?}", reserved), String::new())); break; }
+      if !rec.completed {
+        let mut expect: Vec<KeyR> = rec.req_issued.iter().filter(|u| !rec.deps.iter().any(|d| d.target == Target::Task(**u))).map(|u| KeyR::Task(prog.tasks[*u].key)).collect();
+        let mut got = reserved.clone();
+        expect.sort_by_key(|k| format!("{:?}", k));
+        got.sort_by_key(|k| format!("{:?}", k));
+        if expect != got { problem = Some((format!("aborted task {t} holds reserved require edges to {:?}; the requires that were in progress when it was aborted are {:?}", got, expect), String::new())); break; }
+      }
       if real.len() != rec.deps.len() {
         problem = Some((format!("store holds {} dependencies for task {t}, its latest execution created {}: store targets {:?}, ledger targets {:?}", real.len(), rec.deps.len(), real.iter().map(|e| keys[e.target].clone()).collect::<Vec<_>>(), rec.deps.iter().map(|d| d.target).collect::<Vec<_>>()), String::new()));
         break;
@@ -593,15 +601,18 @@ impl<'a> Runner<'a> {
     }
     if let Some((msg, sig)) = problem {
       let props: &[&str] = if sig.is_empty() { &["C08", "C15"] } else { &["C08", "C09"] };
+      let unexplained = sig.is_empty();
       let v = Violation::new(props, "store-dump", step, msg).with_sig(&sig);
       if self.vs.len() < 16 { self.vs.push(v); }
+      return unexplained;
     }
+    false
   }
 
   /// A build aborted with a cycle / hidden-dependency / overlapping-write diagnostic: decide whether the violation
   /// exists in the current state (fine), is explained by recorded dependencies of tasks that were not yet validated
   /// in this session (stale-edge signature: a listed known finding or a violation), or is unexplained (violation).
-  fn judge_diagnostic_abort(&mut self, step: usize, abort: &Abort, an: &Analysis, before: &[Option<Val>]) {
+  fn judge_diagnostic_abort(&mut self, step: usize, abort: &Abort, an: &Analysis, before: &[Option<Val>], store_differs: bool) {
     let prog = self.prog.clone();
     let world = self.real_world();
     let mut clean = Clean::new(&prog, world);
@@ -705,6 +716,11 @@ impl<'a> Runner<'a> {
         self.viol(&p2, "abort-by-unordered-stale-record", step, format!("bottom-up build aborted on a stale record while task {q}, which the aborting task {t} (transitively) requires, was still scheduled and should have been executed first: {}", abort.info.short()));
         return;
       }
+    }
+    // A stale-edge explanation is only accepted when pie's store holds exactly the recorded dependencies.
+    if store_differs && cause.is_some() {
+      self.viol(&props, "abort-with-store-differing-from-records", step, format!("build aborted with a diagnostic while the dependency store differs from the dependencies that the tasks' latest executions created: {}", abort.info.short()));
+      return;
     }
     match cause {
       Some(c) => {
